@@ -113,11 +113,15 @@ def at_post(c):
     if '__i0' not in e:
         return z3.BoolVal(False)
     j = e['__i0'].z                                                        # passes started when the call returns
-    sl, tl, bt, et = seg(c) if 'target_level' in e else (to_real(e['start_level']),) * 2 + (z3.RealVal(0),) * 2
+    in_body = 0 in c.st.ghost.get('in_loops', ())      # returned from inside the loop (known from the engine, not from a local's name)
+    if in_body:
+        sl, tl, bt, et = seg(c)            # (a renamed local: KeyError -> out of the subset, never a verdict)
+    else:
+        sl, tl, bt, et = (to_real(e['start_level']),) * 2 + (z3.RealVal(0),) * 2
     inside = c.time < et
     after = z3.Implies(z3.Not(inside), z3.And(j == NSTAGES, c.time >= CUM(NSTAGES),
                                               r == DATA[4 * NSTAGES]))     # holds the LAST level, only after the end
-    if 'i' not in e:
+    if not in_body:
         return after
     lo = z3.If(sl <= tl, sl, tl)
     hi = z3.If(sl <= tl, tl, sl)
